@@ -184,5 +184,145 @@ def isStrictlySorted : List Nat → Bool
 def fromVecUnchecked (dbg : Bool) (v : List Nat) : Option (List Nat) :=
   if dbg then (if isStrictlySorted v then some v else none) else some v
 
+
+/-! ### `scalar.rs` / `visitor.rs` as the ONE generic function per operator that the Rust has (fidelity audit)
+
+`Arr.or/and/sub/xor` above are the merges specialised to the `VecWriter` visitor (result = the written vector) and
+`Arr.interLen` is `and` specialised to the `CardinalityCounter` visitor.  Below, the visitor is a parameter, as in the
+Rust; the equalities `scalar*_vecWriter` / `scalarAnd_cardCounter` are unconditional and the `@[csimp]` equations make
+the compiled driver execute the generic code with the respective visitor wherever the model calls
+`Arr.or/and/sub/xor/interLen`.  The theorems stay about the specialised definitions. -/
+
+/-- visitor.rs:14-19 `BinaryOperationVisitor` (without the `simd`-only `visit_vector`): the visitor's state `σ` and its
+    two callbacks, state-passing -/
+structure Visitor (σ : Type) where
+  visitScalar : σ → Nat → σ
+  visitSlice : σ → List Nat → σ
+
+/-- visitor.rs:23-63 `VecWriter`: `visit_scalar` = `vec.push(value)`, `visit_slice` = `vec.extend_from_slice(values)` -/
+def vecWriter : Visitor (Array Nat) :=
+  { visitScalar := fun vec x => vec.push x, visitSlice := fun vec xs => vec ++ xs.toArray }
+
+/-- visitor.rs:65-92 `CardinalityCounter`: `count += 1`, `count += values.len()` -/
+def cardCounter : Visitor Nat :=
+  { visitScalar := fun count _ => count + 1, visitSlice := fun count xs => count + xs.length }
+
+/-- scalar.rs:7-38 `or`, generic in the visitor; the two lists are `lhs[i..]` and `rhs[j..]` -/
+def scalarOr {σ : Type} (V : Visitor σ) : List Nat → List Nat → σ → σ
+  | [], r, st => V.visitSlice (V.visitSlice st []) r                 -- visit_slice(&lhs[i..]); visit_slice(&rhs[j..])
+  | a :: l, [], st => V.visitSlice (V.visitSlice st (a :: l)) []
+  | a :: l, b :: r, st =>
+    if a < b then scalarOr V l (b :: r) (V.visitScalar st a)         -- Less
+    else if b < a then scalarOr V (a :: l) r (V.visitScalar st b)    -- Greater
+    else scalarOr V l r (V.visitScalar st a)                         -- Equal
+termination_by l r => l.length + r.length
+
+/-- scalar.rs:41-62 `and` -/
+def scalarAnd {σ : Type} (V : Visitor σ) : List Nat → List Nat → σ → σ
+  | [], _, st => st
+  | _ :: _, [], st => st
+  | a :: l, b :: r, st =>
+    if a < b then scalarAnd V l (b :: r) st
+    else if b < a then scalarAnd V (a :: l) r st
+    else scalarAnd V l r (V.visitScalar st a)
+termination_by l r => l.length + r.length
+
+/-- scalar.rs:65-91 `sub` -/
+def scalarSub {σ : Type} (V : Visitor σ) : List Nat → List Nat → σ → σ
+  | [], _, st => V.visitSlice st []                                  -- visit_slice(&lhs[i..])
+  | a :: l, [], st => V.visitSlice st (a :: l)
+  | a :: l, b :: r, st =>
+    if a < b then scalarSub V l (b :: r) (V.visitScalar st a)
+    else if b < a then scalarSub V (a :: l) r st
+    else scalarSub V l r st
+termination_by l r => l.length + r.length
+
+/-- scalar.rs:94-124 `xor` -/
+def scalarXor {σ : Type} (V : Visitor σ) : List Nat → List Nat → σ → σ
+  | [], r, st => V.visitSlice (V.visitSlice st []) r
+  | a :: l, [], st => V.visitSlice (V.visitSlice st (a :: l)) []
+  | a :: l, b :: r, st =>
+    if a < b then scalarXor V l (b :: r) (V.visitScalar st a)
+    else if b < a then scalarXor V (a :: l) r (V.visitScalar st b)
+    else scalarXor V l r st
+termination_by l r => l.length + r.length
+
+theorem scalarOr_vecWriter (l r : List Nat) : ∀ acc : Array Nat,
+    (scalarOr vecWriter l r acc).toList = acc.toList ++ or l r := by
+  fun_induction or l r <;> intro acc
+  all_goals first
+    | (rename_i l' hne; cases l' with
+        | nil => exact absurd rfl hne
+        | cons a l' => simp [scalarOr, vecWriter])
+    | (simp [*, scalarOr]; try simp [vecWriter])
+
+theorem scalarAnd_vecWriter (l r : List Nat) : ∀ acc : Array Nat,
+    (scalarAnd vecWriter l r acc).toList = acc.toList ++ and l r := by
+  fun_induction and l r <;> intro acc
+  all_goals first
+    | (rename_i l' hne; cases l' with
+        | nil => exact absurd rfl hne
+        | cons a l' => simp [scalarAnd, vecWriter])
+    | (simp [*, scalarAnd]; try simp [vecWriter])
+
+theorem scalarSub_vecWriter (l r : List Nat) : ∀ acc : Array Nat,
+    (scalarSub vecWriter l r acc).toList = acc.toList ++ sub l r := by
+  fun_induction sub l r <;> intro acc
+  all_goals first
+    | (rename_i l' hne; cases l' with
+        | nil => exact absurd rfl hne
+        | cons a l' => simp [scalarSub, vecWriter])
+    | (simp [*, scalarSub]; try simp [vecWriter])
+
+theorem scalarXor_vecWriter (l r : List Nat) : ∀ acc : Array Nat,
+    (scalarXor vecWriter l r acc).toList = acc.toList ++ xor l r := by
+  fun_induction xor l r <;> intro acc
+  all_goals first
+    | (rename_i l' hne; cases l' with
+        | nil => exact absurd rfl hne
+        | cons a l' => simp [scalarXor, vecWriter])
+    | (simp [*, scalarXor]; try simp [vecWriter])
+
+theorem scalarAnd_cardCounter (l r : List Nat) : ∀ n : Nat,
+    scalarAnd cardCounter l r n = n + interLen l r := by
+  fun_induction interLen l r <;> intro n
+  all_goals first
+    | (rename_i l' hne; cases l' with
+        | nil => exact absurd rfl hne
+        | cons a l' => simp [scalarAnd, cardCounter])
+    | (simp [*, scalarAnd]; try simp [cardCounter]; try omega)
+
+/-- `VecWriter::new(cap)`, `scalar::or(.., &mut visitor)`, `visitor.into_inner()` (array_store/mod.rs:353-359, before
+    `from_vec_unchecked`) -/
+def orVisit (a b : List Nat) : List Nat := (scalarOr vecWriter a b #[]).toList
+def andVisit (a b : List Nat) : List Nat := (scalarAnd vecWriter a b #[]).toList
+def subVisit (a b : List Nat) : List Nat := (scalarSub vecWriter a b #[]).toList
+def xorVisit (a b : List Nat) : List Nat := (scalarXor vecWriter a b #[]).toList
+/-- array_store/mod.rs:215-222 `intersection_len`: `CardinalityCounter::new()`, `scalar::and`, `into_inner()` -/
+def interLenVisit (a b : List Nat) : Nat := scalarAnd cardCounter a b 0
+
+@[csimp] theorem or_eq_visit : @or = @orVisit := by funext a b; simp [orVisit, scalarOr_vecWriter]
+@[csimp] theorem and_eq_visit : @and = @andVisit := by funext a b; simp [andVisit, scalarAnd_vecWriter]
+@[csimp] theorem sub_eq_visit : @sub = @subVisit := by funext a b; simp [subVisit, scalarSub_vecWriter]
+@[csimp] theorem xor_eq_visit : @xor = @xorVisit := by funext a b; simp [xorVisit, scalarXor_vecWriter]
+@[csimp] theorem interLen_eq_visit : @interLen = @interLenVisit := by
+  funext a b; simp [interLenVisit, scalarAnd_cardCounter]
+
+/-! #### the four `&ArrayStore ∘ &ArrayStore` operator impls with their closing `from_vec_unchecked` (fidelity audit)
+
+`Store.orRef` etc. use the bare merge result `Arr.or a b`; the Rust wraps it in `ArrayStore::from_vec_unchecked`, which
+validates the vector in a debug build (`none` = the `unwrap()` panics).  `Lemmas/MirrorLemmas.lean` proves
+`orOp dbg a b = some (Arr.or a b)` for strictly ascending operands (what `Store.Inv` provides): the validation never
+fires, so dropping it in `Store.*` loses nothing on well-formed values. -/
+
+/-- array_store/mod.rs:348-361 `BitOr for &ArrayStore` -/
+def orOp (dbg : Bool) (a b : List Nat) : Option (List Nat) := fromVecUnchecked dbg (orVisit a b)
+/-- array_store/mod.rs:363-374 `BitAnd for &ArrayStore` -/
+def andOp (dbg : Bool) (a b : List Nat) : Option (List Nat) := fromVecUnchecked dbg (andVisit a b)
+/-- array_store/mod.rs:402-413 `Sub for &ArrayStore` -/
+def subOp (dbg : Bool) (a b : List Nat) : Option (List Nat) := fromVecUnchecked dbg (subVisit a b)
+/-- array_store/mod.rs:441-454 `BitXor for &ArrayStore` -/
+def xorOp (dbg : Bool) (a b : List Nat) : Option (List Nat) := fromVecUnchecked dbg (xorVisit a b)
+
 end Arr
 end Roaring
